@@ -30,6 +30,7 @@ import (
 	"time"
 
 	"github.com/daeuniverse/dae/common/consts"
+	"github.com/daeuniverse/dae/common/netutils"
 	"github.com/daeuniverse/dae/component/dns"
 	"github.com/daeuniverse/dae/config"
 	"github.com/daeuniverse/dae/pkg/config_parser"
@@ -74,12 +75,27 @@ func buildDns(text string, log *logrus.Logger) (*dns.Dns, *config.Config, error)
 		Logger:                  log,
 		UpstreamReadyCallback:   func(*dns.Upstream) error { return nil },
 		UpstreamResolverNetwork: "udp",
-		UpstreamHostResolver:    nil, // IP-literal upstreams only: no resolver, no network
+		UpstreamHostResolver:    staticHostResolver, // a fixed in-process table (leg 3's host-name upstreams); IP literals never reach it
 	})
 	if err != nil {
 		return nil, nil, fmt.Errorf("dns.New: %w", err)
 	}
 	return d, conf, nil
+}
+
+// staticHostResolver stands in for global.bootstrap_resolver: a fixed table, no network. Both names resolve to the
+// SAME address on purpose (two server names behind one address).
+var staticHosts = map[string]netip.Addr{
+	"dns-a.test": netip.MustParseAddr("192.0.2.1"),
+	"dns-b.test": netip.MustParseAddr("192.0.2.1"),
+}
+
+func staticHostResolver(_ context.Context, host string, _ string) (*netutils.Ip46, error, error) {
+	if a, ok := staticHosts[host]; ok {
+		return &netutils.Ip46{Ip4: a}, nil, fmt.Errorf("no AAAA record for %s", host)
+	}
+	err := fmt.Errorf("static resolver: unknown host %q", host)
+	return nil, err, err
 }
 
 // ---------- violation bookkeeping: a few per (leg, class) ----------
@@ -120,8 +136,8 @@ func (h *hist) add(local map[string]int64) {
 // ---------- budget: every leg gets a share of the tier budget, so a slow machine starves no leg ----------
 
 const (
-	budgetQ = 150 * time.Second
-	budgetT = 14 * time.Minute
+	budgetQ = 170 * time.Second // 150 s for the legs that existed before leg 3 + 20 s for leg 3
+	budgetT = 16 * time.Minute  // 14 min + 2 min for leg 3
 )
 
 var (
@@ -682,8 +698,15 @@ func main() {
 		concurrencyLeg(r)
 		r.Finish()
 	}
+	if os.Getenv("C07_ONLY_LEG3") != "" { // debugging aid: run only the upstream-identity leg
+		consts.MaxMatchSetLen = 64
+		setShare(1.0)
+		runLeg3(r)
+		legDone("leg3_twins")
+		r.Finish()
+	}
 	thorough := r.Thorough()
-	r.Rule("Leg 1: every program (rule list of length 0..K over a closed rule pool = condition pool x outbound pool, x fallback pool) x every input of a closed input list; programs and inputs are enumerated without repetition, so every (program,input) case is distinct; a case is non-trivial when a rule (not the fallback) decides it. Leg 2: every (response program, request route, answer table) x question through the real DnsController; non-trivial when the reference chain re-asks or ends in a reject. distinct_nontrivial = the sum of both counts.")
+	r.Rule("Leg 1: every program (rule list of length 0..K over a closed rule pool = condition pool x outbound pool, x fallback pool) x every input of a closed input list; programs and inputs are enumerated without repetition, so every (program,input) case is distinct; a case is non-trivial when a rule (not the fallback) decides it. Leg 2: every (response program, request route, answer table) x question through the real DnsController; non-trivial when the reference chain re-asks or ends in a reject. Leg 3: every (upstream set of twins, request route, response program, answer table, order of the question list) history through the real DnsController; an ask is non-trivial when an earlier question of the same history was sent to another upstream of the set. distinct_nontrivial = the sum of the three counts.")
 
 	nUp := 2
 	if thorough {
@@ -771,10 +794,11 @@ func main() {
 	r.Set("response_inputs", len(rin))
 
 	// ----- Pass 0 (production match-set length 1024): every program with <=1 rule, every fallback -----
-	// cumulative shares of the tier budget: <=1-rule full-size pass | interleaved + router | leg 2 | 2-rule bulk | 3-rule bulk
-	shares := []float64{0.20, 0.30, 0.60, 1.0, 1.0}
+	// cumulative shares of the tier budget: <=1-rule full-size pass | interleaved + router | leg 2 | leg 3 | 2-rule bulk | 3-rule bulk
+	// (in seconds of the quick budget: 30 | 45 | 90 | 110 | 170; in minutes of the thorough budget: 1.12 | 1.68 | 5.32 | 7.32 | 13.2 | 16)
+	shares := []float64{30.0 / 170, 45.0 / 170, 90.0 / 170, 110.0 / 170, 1.0, 1.0}
 	if thorough {
-		shares = []float64{0.08, 0.12, 0.38, 0.80, 1.0}
+		shares = []float64{1.12 / 16, 1.68 / 16, 5.32 / 16, 7.32 / 16, 13.2 / 16, 1.0}
 	}
 	setShare(shares[0])
 	(&matcherRun{name: "upto1rule_fullsize", nUp: nUp, rin: rin, froms: froms,
@@ -807,14 +831,19 @@ func main() {
 	runLeg2(r)
 	legDone("leg2_flow")
 
-	// ----- Leg 1 bulk: every 2-rule program -----
+	// ----- Leg 3: upstream identity (twin upstream sets x question orders) -----
 	setShare(shares[3])
+	runLeg3(r)
+	legDone("leg3_twins")
+
+	// ----- Leg 1 bulk: every 2-rule program -----
+	setShare(shares[4])
 	(&matcherRun{name: "2rules", nUp: nUp, rin: rin, froms: froms,
 		req:  &space{name: "request", nUp: nUp, inputs: reqIn, rules: reqRules, fallbacks: reqFb2, minRules: 2, maxRules: 2},
 		resp: &space{name: "response", nUp: nUp, inputs: plainIn, rules: respRules, fallbacks: respFb2, minRules: 2, maxRules: 2}}).run(r)
 	legDone("leg1_2rules")
 	if thorough {
-		setShare(shares[4])
+		setShare(shares[5])
 		red := [][]Cond{{upB}, {neg(upA)}, {ipIn}, {neg(ipMix)}, {rQT[1]}, {rQN[1]}, {ipIn, rQN[2]}, {upA, rQT[0]}}
 		(&matcherRun{name: "3rules", nUp: nUp, rin: rin, froms: froms,
 			req:  &space{name: "request3", nUp: nUp, inputs: reqIn, rules: mkRules(redConds, append(redOuts, "asis"), reqIn), fallbacks: []string{"ub", "asis", "reject"}, minRules: 3, maxRules: 3},
@@ -824,10 +853,10 @@ func main() {
 	if thorough {
 		legDone("leg1_3rules")
 	}
-	nt := r.Counter("cases_decided_by_a_rule").Load() + r.Counter("leg2_questions_with_reask_or_reject").Load()
+	nt := r.Counter("cases_decided_by_a_rule").Load() + r.Counter("leg2_questions_with_reask_or_reject").Load() + r.Counter("leg3_asks_after_another_upstream_of_the_set_was_used").Load()
 	r.Set("distinct_nontrivial", nt)
 	r.Assume("all programs with <=1 rule run with the production match-set length 1024; programs with 2..3 rules run with consts.MaxMatchSetLen=64 (a supported build-time knob) because the matcher allocates arrays of that length per program; rule indices stay far below both")
-	r.Assume("upstreams are IP literals (udp://192.0.2.x, tcp://192.0.2.3): no bootstrap resolver, no network; dns.New's optimizer chain (DatReader, MergeAndSort, DeduplicateParams) runs exactly as in production but geosite/geoip references are not part of the grammar")
+	r.Assume("legs 1 and 2: upstreams are IP literals (udp://192.0.2.x, tcp://192.0.2.3): no bootstrap resolver, no network (leg 3 varies the upstream set, see there); dns.New's optimizer chain (DatReader, MergeAndSort, DeduplicateParams) runs exactly as in production but geosite/geoip references are not part of the grammar")
 	r.Assume("qname patterns are lower-case and inside the documented alphabet (pattern-kind semantics for odd patterns is C11's subject); v4-mapped IPv6 answer addresses are not in the answer pool")
 	r.Assume("upstream(<reserved word>) conditions (upstream(accept), upstream(reject), upstream(asis)) are outside the grammar: the statement does not define them")
 	r.Assume("2-rule programs: quick uses request fallbacks {asis, ua} and response fallbacks {accept, ua}; thorough uses all request fallbacks and response fallbacks {reject, ua}; programs with <=1 rule use every fallback; thorough has 3 upstreams, quick 2")
